@@ -387,7 +387,7 @@ func (g *docGen) selSet(scope string, depth int, fragDepth int) string {
 			// one response key, one argument list (fields under one key must have identical arguments)
 			rkey := strings.TrimSuffix(strings.TrimSpace(alias), ":") + "/" + f.name
 			argText, ok := g.argTexts[rkey]
-			if !ok {
+			if !ok || (g.hostile && g.r.Chance(1, 6)) { // hostile: differing arguments under one response key
 				argText = g.argsText(f.name)
 				g.argTexts[rkey] = argText
 			}
